@@ -1958,6 +1958,23 @@ impl NodeMut for XmlElement {
             return Err(error::DomException::WrongDocumentErr)?;
         }
 
+        if let XmlNode::ExpandedText(text) = &new_child {
+            // The nodes that read as this one text go one after the other. All of them are
+            // leaves that an element takes, so only the first of them can be refused.
+            let mut reference = ref_child.cloned();
+            if let Some(r) = ref_child {
+                if text.data.iter().any(|v| v.id() == r.id()) {
+                    reference = new_child.next_sibling();
+                }
+            }
+
+            for v in text.data.as_slice() {
+                self.insert_before(v.clone(), reference.as_ref())?;
+            }
+
+            return Ok(new_child);
+        }
+
         let value = if let Some(r) = ref_child {
             if !same_document(self.owner_document(), r.owner_document()) {
                 return Err(error::DomException::WrongDocumentErr)?;
@@ -1987,13 +2004,21 @@ impl NodeMut for XmlElement {
             return Err(error::DomException::WrongDocumentErr)?;
         }
 
-        // A merged text node stands for a run of text, reference and CDATA section nodes.
         if let XmlNode::ExpandedText(text) = old_child {
-            for (i, data) in text.data.iter().enumerate() {
-                if self.element.borrow().delete(data.id()).is_none() && i == 0 {
-                    return Err(error::DomException::NotFoundErr)?;
-                }
+            // The nodes that read as this one text go together.
+            let element = self.element.borrow();
+            if text
+                .data
+                .iter()
+                .any(|v| element.child_index(v.id()).is_none())
+            {
+                return Err(error::DomException::NotFoundErr)?;
             }
+
+            for v in text.data.as_slice() {
+                element.delete(v.id());
+            }
+
             return Ok(old_child.clone());
         }
 
